@@ -447,13 +447,16 @@ func (env *ExecEnv) Eval(expr string) (n int, err error) {
 	l := newLexer(env, strings.NewReader(expr))
 	defer verifYield(verifReturn, l)
 	defer func() {
-		if e := recover(); e != nil {
+		e := recover()
+		l.stop()
+		if e != nil {
 			l.Error(e.(error).Error())
 			err = l.err
 		}
 	}()
 
 	yyParse(l)
+	l.stop()
 	verifYield(verifPreReturn, l)
 	return l.n, l.err
 }
